@@ -153,9 +153,20 @@ def raw_under_logical(node, d, tuples=True):
     if k == "map":
         return isinstance(d, Mapping) and any(raw_under_logical(node.values, x, tuples) for x in d.values())
     if k == "record":
-        return isinstance(d, Mapping) and any(
-            raw_under_logical(f.type, d[f.name], tuples) for f in node.fields if f.name in d
-        )
+        if not isinstance(d, Mapping):
+            return False
+        for f in node.fields:
+            if f.name in d:
+                if raw_under_logical(f.type, d[f.name], tuples):
+                    return True
+            elif f.has_default:
+                # an omitted field stands for its default, which is a raw JSON value
+                try:
+                    if raw_under_logical(f.type, default_datum(f.type, f.default), tuples):
+                        return True
+                except RecursionError:
+                    return True
+        return False
     if k == "union":
         if tuples and type(d) is tuple and len(d) == 2:
             return any(hint_name(b) == d[0] and raw_under_logical(b, d[1], tuples) for b in node.branches)
